@@ -11,7 +11,7 @@ RE(S) == RandomElement(S)
 Enrolled(s) == {k \in CertKeys : s.cert[k] # "none"}
 
 RandClient(i) ==
-  [op |-> "Connect", kind |-> "auth", k |-> RE(CertKeys), ck |-> RE(CertKeys), chain |-> RE({"b0", "b0", "b1", "foreign", "self", "selfNoSan"}),
+  [op |-> "Connect", kind |-> "auth", k |-> RE(CertKeys), ck |-> RE(CertKeys), chain |-> RE({"b0", "b0", "b1", "foreign", "self", "selfNoSan", "leadOwn"}),
    priv |-> RE({TRUE, TRUE, FALSE}), nsig |-> RE(Signers), stt |-> RE({NONE, "ok", "forged", "unsigned"}), skip |-> RE(BOOLEAN),
    nid |-> RE({NONE, "own", "other", "bogus"}), pref |-> RE({"cur", "next", "garbage", NONE}), cn |-> RE(BOOLEAN)]
 
@@ -23,7 +23,7 @@ Honest(k) == [op |-> "Connect", kind |-> "auth", k |-> k, ck |-> k, chain |-> "b
               xp |-> RE({NONE, NONE, "mid", "afterPref", "before", "split"})]
 Mutate(c) ==
   {[c EXCEPT !.priv = FALSE], [c EXCEPT !.skip = TRUE], [c EXCEPT !.cn = TRUE], [c EXCEPT !.nsig = "kx"], [c EXCEPT !.nsig = NONE],
-   [c EXCEPT !.stt = "forged"], [c EXCEPT !.stt = "unsigned"], [c EXCEPT !.chain = "foreign"], [c EXCEPT !.chain = "self"], [c EXCEPT !.chain = "selfNoSan"],
+   [c EXCEPT !.stt = "forged"], [c EXCEPT !.stt = "unsigned"], [c EXCEPT !.chain = "foreign"], [c EXCEPT !.chain = "self"], [c EXCEPT !.chain = "selfNoSan"], [c EXCEPT !.chain = "leadOwn"],
    [c EXCEPT !.chain = "b1"], [c EXCEPT !.pref = "garbage"], [c EXCEPT !.pref = "next"], [c EXCEPT !.nid = "other"],
    [c EXCEPT !.skip = TRUE, !.nsig = "kx"], [c EXCEPT !.skip = TRUE, !.stt = "forged"],
    [c EXCEPT !.nid = "bogus"], [c EXCEPT !.nid = "bogus", !.nsig = "kx"], [c EXCEPT !.nid = "bogus", !.nsig = NONE]}
